@@ -240,8 +240,8 @@ def orc_c09_pairs(cases_by_name, impl):
 
 
 prop("C09", ["c09_reachable_wf", "c09_total_encap", "c09_total_encap_frag", "c09_total_previews", "c09_atomic_encap",
-             "c09_atomic_encap_frag", "c09_rejects", "c09_rejects_frag"],
-     ["ENC", "PRE"], gen_c09, [orc_c09], pair_oracle=orc_c09_pairs)
+             "c09_atomic_encap_frag", "c09_rejects", "c09_rejects_frag", "c09_total_encap_ext", "c09_atomic_encap_ext", "c09_rejects_ext"],
+     ["ENC", "ENCX", "PRE"], gen_c09, [orc_c09], pair_oracle=orc_c09_pairs)
 
 
 # ------------------------------------------------------------------------------------------------
@@ -384,7 +384,7 @@ def orc_c06(case, obs):
     return bad
 
 
-prop("C06", ["c06_encap", "c06_encap_frag"], ["ENC", "ENCX"], no_cases, [orc_c06])
+prop("C06", ["c06_encap", "c06_encap_frag", "c06_encap_ext"], ["ENC", "ENCX"], no_cases, [orc_c06])
 
 
 # ------------------------------------------------------------------------------------------------
@@ -1025,7 +1025,7 @@ def orc_c10(case, obs):
     return bad
 
 
-prop("C10", ["c10_tail_independent", "c10_walk", "c10_sender_well_framed", "c10_sender_frag_well_framed", "c10_never_padding"],
+prop("C10", ["c10_tail_independent", "c10_walk", "c10_sender_well_framed", "c10_sender_frag_well_framed", "c10_sender_ext_well_framed", "c10_never_padding"],
      ["DEC", "ENC"], gen_c10, [orc_c10], pair_oracle=orc_c10_pairs)
 
 
